@@ -42,6 +42,7 @@ def run(ctx):
     ctx.attempt(local_jacobian_rule, ctx)
     ctx.attempt(free_energy_rule, ctx)
     ctx.attempt(plane_stress_flow_rule, ctx)
+    ctx.attempt(plane_stress_kinematic_rule, ctx)
     ctx.attempt(reducibility_rule, ctx)
     from ..shared import commit_idempotent_rule as _commit_idempotent_rule
 
@@ -1288,6 +1289,30 @@ def free_energy_rule(ctx, rid="R19.23"):
             r.fail(fP.qualname, f"free-energy:{label.split(' ==')[0]}", fP.file, fP.lineno, "Behavior.Compute_psi", f"{label} fails (component {badk[0]}: residual {res[badk[0]]!r}): the declared free energy is not the potential of the forces the evolution laws use - the dissipation sigma : d(eps) - d(psi) evaluated with it can be negative along an admissible path")
 
 
+class _SlotTable:
+    """stand-in of StateLayout.slots (keys are Slot members or their names)"""
+    _xeval_open = True
+
+    def __init__(self, table):
+        self.table = table
+
+    def _key(self, k):
+        from ..xeval import EnumVal
+        return (k.name if isinstance(k, EnumVal) else str(k)).split(".")[-1]
+
+    def __getitem__(self, k):
+        return self.table[self._key(k)]
+
+    def get(self, k, default=None):
+        return self.table.get(self._key(k), default)
+
+    def __contains__(self, k):
+        return self._key(k) in self.table
+
+    def items(self):
+        return self.table.items()
+
+
 def plane_stress_flow_rule(ctx, rid="R19.24"):
     """'plane stress leaves no out-of-plane stress': the out-of-plane strain `Compute_strain_6d` returns makes sig_zz of
     the MATERIAL'S OWN RESPONSE vanish - the response of `__Integrate_3d`, which flows and relaxes - not that of the elastic
@@ -1332,10 +1357,12 @@ def plane_stress_flow_rule(ctx, rid="R19.24"):
 
                 I = Interp(repo)
                 I.call_hook = hook
-                obj = XObj(ci, {"dim": 2, "planeStress": True, ci.mangle("__yield"): SimpleNamespace(scale=1, P=None), ci.mangle("__rate"): Opaque("rate") if has_rate else None,
-                                ci.mangle("__branches"): (SimpleNamespace(g=Q(1, 4), tau=Q(1)),) if has_br else (), ci.mangle("__layout"): SimpleNamespace(n=7),
+                obj = XObj(ci, {"dim": 2, "planeStress": True, ci.mangle("__yield"): SimpleNamespace(scale=1, P=None, f=lambda *a, **k: XFe((1, 1), [Q(1)])), ci.mangle("__rate"): Opaque("rate") if has_rate else None,
+                                # (the stand-in response flows at every strain: a surface asked directly answers 'outside')
+                                ci.mangle("__hardening"): SimpleNamespace(R=lambda p: XFe((1, 1), [Q(0)])), ci.mangle("__kinematic"): (), ci.mangle("__eigen"): None,
+                                ci.mangle("__branches"): (SimpleNamespace(g=Q(1, 4), tau=Q(1)),) if has_br else (), ci.mangle("__layout"): SimpleNamespace(n=7, slots=_SlotTable({"eps_p": slice(0, 6), "p": slice(6, 7)})),
                                 "C": XArray((6, 6), [Cel[i][j] for i in range(6) for j in range(6)]), "_C_e_pg": lambda Ne, nPg: XFe((1, 1, 6, 6), [Cel[i][j] for i in range(6) for j in range(6)]),
-                                "State_zeros": lambda *a, **k: Opaque("z0")})
+                                "State_zeros": lambda *a, **k: XFe((1, 1, 7), [Q(0)] * 7)})
                 tag = f"{'rate law, ' if has_rate else ''}{'Maxwell branch, ' if has_br else ''}dt = {dt}"
                 try:
                     e6 = XArray.from_nested(I.call_function(f, [eps2, Opaque("zOld"), dt], self_obj=obj))
@@ -1348,6 +1375,118 @@ def plane_stress_flow_rule(ctx, rid="R19.24"):
                     r.ok(f"{tag}: sig_zz of the material's response vanishes")
                 else:
                     r.fail(f.qualname, f"plane-stress-flow:{'rate' if has_rate else 'norate'}:{'branch' if has_br else 'nobranch'}:dt{dt}", f.file, f.lineno, "Behavior.Compute_strain_6d", f"{tag}: at the returned strain the out-of-plane stress of the material's own response is {float(szz) if isinstance(szz, (int, Q)) else szz!r} (stress scale 1e-2): eps_zz was taken from the elastic closed form although the material flows - plane stress leaves an out-of-plane stress")
+
+
+def plane_stress_kinematic_rule(ctx, rid="R19.26"):
+    """'plane stress leaves no out-of-plane stress' on a material whose surface has MOVED (kinematic hardening carried in the
+    committed state): whether the increment is elastic is a question about the RELATIVE stress sig - X, and about the
+    material's own response - nothing else may answer it.  `Compute_strain_6d` and the plane-stress Newton are interpreted,
+    with the real `Compute_sigma`, `Compute_elastic_strain`, `Compute_back_stress`, on a behaviour whose yield object is the
+    linear surface f(xi, R) = xi_xx - 1 - R and whose 3-D response (the stand-in of `__Integrate_3d`) is CONSISTENT with it:
+    elastic (C) while f(sig_trial - X, R) <= 0, flowing (C_ep, another lateral coupling) otherwise.  Two committed states:
+    the back-stress pulls the surface towards the load (f(sig) <= 0 < f(sig - X): the point flows although the plain stress
+    is inside) and away from it (f(sig) > 0 >= f(sig - X): elastic although the plain stress is outside).  At the returned
+    strain the out-of-plane stress OF THAT RESPONSE must vanish."""
+    from types import SimpleNamespace
+    from fractions import Fraction as Q
+
+    from ..xarray import XArray
+    from ..xeval import Interp, XObj, Opaque, XRaise, EnumVal
+    from ..femchain import XFe, fe_hook_full
+    from ..repo import FuncInfo
+
+    repo = ctx.repo
+    ci = repo.cls(BEH)
+    f = ci.methods["Compute_strain_6d"]
+    fSig, fX = ci.methods["Compute_sigma"], ci.methods["Compute_back_stress"]
+    r = ctx.rule(rid, "plane-stress completion with a moved surface (committed back-stress): sig_zz of the material's own response - flowing iff the RELATIVE stress leaves the surface - vanishes at the strain Compute_strain_6d returns", min_instances=2)
+
+    class Slots:
+        _xeval_open = True
+
+        def __init__(self, table):
+            self.table = table
+
+        def _key(self, k):
+            return (k.name if isinstance(k, EnumVal) else str(k)).split(".")[-1]
+
+        def __getitem__(self, k):
+            return self.table[self._key(k)]
+
+        def get(self, k, default=None):
+            return self.table.get(self._key(k), default)
+
+        def __contains__(self, k):
+            return self._key(k) in self.table
+
+        def items(self):
+            return self.table.items()
+
+        def keys(self):
+            return self.table.keys()
+
+    def iso(lam, mu):
+        return [[(lam if i < 3 and j < 3 else Q(0)) + (2 * mu if i == j else Q(0)) for j in range(6)] for i in range(6)]
+
+    Cel, Cep = iso(Q(3), Q(2)), iso(Q(1), Q(2))
+    table = {"eps_p": slice(0, 6), "p": slice(6, 7), "alpha0": slice(7, 13)}
+    for label, axx, exx, flows in (("surface pulled towards the load (f(sig) <= 0 < f(sig - X))", Q(-1, 4), Q(14, 100), True),
+                                   ("surface pushed away from the load (f(sig - X) <= 0 < f(sig))", Q(1, 4), Q(21, 100), False)):
+        r.instance(fn=f.qualname)
+        eps2 = XFe((1, 1, 3), [exx, Q(0), Q(0)])
+        zv = [Q(0)] * 13
+        zv[7] = axx
+        zold = XFe((1, 1, 13), zv)
+
+        def yf(xi, R):
+            xi = XArray.from_nested(xi)
+            Rv = XArray.from_nested(R) if not isinstance(R, (int, Q)) else None
+            return XFe((1, 1), [xi[0, 0, 0] - 1 - (Rv[0, 0] if Rv is not None and Rv.shape == (1, 1) else (R if Rv is None else Rv.data[0]))])
+
+        ys = SimpleNamespace(scale=1, P=None, f=yf)
+        hard = SimpleNamespace(R=lambda p: XFe((1, 1), [Q(0)]), dR=lambda p: XFe((1, 1), [Q(0)]), psi=lambda p: XFe((1, 1), [Q(0)]))
+        comp = SimpleNamespace(X=lambda a: XFe((1, 1, 6), [2 * x for x in XArray.from_nested(a).data]), recall=Q(0), modulus=Q(2))
+        I = Interp(repo)
+        obj = XObj(ci, {"dim": 2, "planeStress": True, ci.mangle("__yield"): ys, ci.mangle("__rate"): None, ci.mangle("__hardening"): hard,
+                        ci.mangle("__kinematic"): (comp,), ci.mangle("__branches"): (), ci.mangle("__layout"): SimpleNamespace(n=13, slots=Slots(table)),
+                        ci.mangle("__eigen"): None,
+                        "C": XArray((6, 6), [Cel[i][j] for i in range(6) for j in range(6)]), "_C_e_pg": lambda Ne, nPg: XFe((1, 1, 6, 6), [Cel[i][j] for i in range(6) for j in range(6)]),
+                        "State_zeros": lambda *a, **k: XFe((1, 1, 13), [Q(0)] * 13)})
+        state = {"inside": False}
+
+        def response(e6):
+            """the material's own 3-D response at the committed state `zold` (consistent with the surface)"""
+            state["inside"] = True
+            try:
+                st = XArray.from_nested(I.call_function(fSig, [e6, zold], self_obj=obj))
+                X = XArray.from_nested(I.call_function(fX, [zold], self_obj=obj))
+            finally:
+                state["inside"] = False
+            fl = st[0, 0, 0] - X[0, 0, 0] - 1 > 0
+            Cm = Cep if fl else Cel
+            e = XArray.from_nested(e6)
+            return fl, [sum((Cm[i][j] * e[0, 0, j] for j in range(6)), Q(0)) for i in range(6)], Cm
+
+        def hook(fn, args, kwargs):
+            fi = fn if isinstance(fn, FuncInfo) else getattr(fn, "finfo", None)
+            if fi is not None and fi.name.endswith("__Integrate_3d") and not state["inside"]:
+                fl, sv, Cm = response(args[0])
+                return (XFe((1, 1, 6), sv), XFe((1, 1, 6, 6), [Cm[i][j] for i in range(6) for j in range(6)]), zold, XArray((1, 1), [True]))
+            return fe_hook_full(fn, args, kwargs)
+
+        I.call_hook = hook
+        try:
+            e6 = I.call_function(f, [eps2, zold, Q(1, 10)], self_obj=obj)
+            fl, sv, _ = response(e6)
+        except XRaise as e:
+            r.fail(f.qualname, f"plane-stress-kinematic:{'flow' if flows else 'elastic'}", f.file, f.lineno, "Behavior.Compute_strain_6d", f"{label}: raises {e}")
+            continue
+        if fl != flows:
+            raise AnalysisError(f"{rid}: the scenario '{label}' does not reach the regime it was written for")
+        if abs(sv[2]) < Q(1, 10**6):
+            r.ok(f"{label}: sig_zz of the material's response vanishes")
+        else:
+            r.fail(f.qualname, f"plane-stress-kinematic:{'flow' if flows else 'elastic'}", f.file, f.lineno, "Behavior.Compute_strain_6d", f"{label}: at the returned strain the material's own response has sig_zz = {float(sv[2]):.4g} (stresses of order 1): the out-of-plane strain was decided by a test on the plain stress (or the elastic closed form) although the surface has moved with the committed back-stress")
 
 
 def elastic_degeneration_rule(ctx, rid="R19.4"):
